@@ -562,26 +562,16 @@ def pull_switch_rule(repo, rep):
             continue
         r8.sites += 1
         r8.functions.add(f.fq)
-        first = None
         from ..inline import Flat
-        from ..cfg import assertion_only
-        for st in Flat(f, keep=('_validate_pull_operations_enabled',)).body:
-            calls = [c for c in ast.walk(st) if isinstance(c, ast.Call) and
-                     (dotted(c.func) or '').startswith('self.')]
-            if assertion_only(st):
-                continue
-            if isinstance(st, (ast.Assign, ast.AnnAssign)) and not any(
-                    isinstance(c, (ast.Call, ast.Subscript, ast.Attribute))
-                    for c in ast.walk(st.value or st)):
-                continue        # binds a name to a name / constant
-            if calls:
-                first = calls[0]
-                break
-            # anything else that runs before the switch is looked at - a
-            # validation written in place (or inlined from a helper) raises
-            # its own error first
-            first = st
-            break
+        from ..cfg import first_effective
+        # the first thing the handler does (assertions and bindings of
+        # names / constants aside); a validation written in place - or
+        # inlined from a helper - that precedes the switch raises its own
+        # error first
+        first = first_effective(
+            Flat(f, keep=('_validate_pull_operations_enabled',)).body)
+        if isinstance(first, ast.Expr) and isinstance(first.value, ast.Call):
+            first = first.value
         ok = isinstance(first, ast.Call) and \
             dotted(first.func) == 'self._validate_pull_operations_enabled'
         r8.ob(ok, n, {'first_call': norm(first, 50) if first is not None
